@@ -181,6 +181,7 @@ def run_c17(ctx):
             if ci < 4: desc = nsgen.add_enums(g, rng, n_types=1, flavours=["strings"], n_vars=3, kinds=["in", "in", "in"], placeholder=True)
             elif ci < 6: desc = nsgen.add_enums(g, rng, n_types=2, flavours=["values", "strings"], n_vars=3, kinds=["in", "in", "out" if ci == 5 else "in"])
             elif ci == 6: desc = nsgen.add_enums(g, rng, n_types=1, flavours=["values"], n_vars=4, kinds=["in", "in", "in", "in"], value_names=["\u00b0C", "m\u00b2 & <x>", "\u00b5", "plain"])   # texts an XML writer escapes
+            elif ci == 7: desc = nsgen.add_enums(g, rng, n_types=1, flavours=["none"], n_vars=3, kinds=["empty", "in", "empty"])     # an empty Int32 element in a variable of a type without definition
             else: desc = nsgen.add_enums(g, rng)
             ds = nsgen.serialise(g, rng, value_xml=parseprops.value_xml, aliases=rng.random() < 0.5)
             files = [(n, docs.render(d, rng)) for n, d, _ in ds]
@@ -223,14 +224,23 @@ def c17_oracle(desc, res, st, G):
         fl, mapping, name = desc["types"][tk]
         if kind == "list": causes.add("list-truncated")
         if kind == "out" and mapping is not None: causes.add("undefined-int-keyerror")
-        if mapping is None and kind in ("in", "out", "list"): causes.add("no-definition-becomes-unknown")
+        if mapping is None and kind in ("in", "out", "list", "empty"): causes.add("no-definition-becomes-unknown")
     def report(sig, detail):
         fails.append(("C17/known:" + "+".join(sorted(causes)) if causes else sig, sig + ": " + detail))
+    def explained(k, prev, new):
+        """is this changed cell exactly what one of the recorded findings does to it?  (anything else is reported under its own signature)"""
+        if k not in desc["vars"] or not isinstance(new, T.UAEnumeration): return False
+        tk, kind, x = desc["vars"][k]; fl, mapping, name = desc["types"][tk]
+        first = prev.value[0] if isinstance(prev, T.UAListOf) and len(prev.value) else prev
+        same_int = isinstance(first, T.UAInt32) and ((first.value is None and new.value is None) or (first.value is not None and new.value is not None and int(first.value) == int(new.value)))
+        if not same_int: return False
+        if mapping is None: return new.string == "Unknown" and new.name == "Unknown"
+        return kind == "list" and new.value in mapping and new.string == mapping[new.value] and new.name == name
     if G is None:
         report("C17/construction-raises", "%s: %s" % (st[1], st[2][:120])); return fails
     ns = res["namespaces"]
     key_of = {i: parseprops.key_of_nid(parsecmp.nid_sx(n), ns) for i, n in zip(res["nodes"]["id"], res["nodes"]["NodeId"])}
-    bad = []
+    bad = []; odd = []
     for (i, prev, new) in zip(res["nodes"]["id"], res["nodes"]["Value"], G.nodes["Value"]):
         k = key_of[int(i)]
         want = prev
@@ -238,8 +248,9 @@ def c17_oracle(desc, res, st, G):
             tk, kind, x = desc["vars"][k]; fl, mapping, name = desc["types"][tk]
             if mapping is not None and kind in ("in",) and isinstance(prev, T.UAInt32): want = T.UAEnumeration(value=x, string=mapping[x], name=name)
         a = None if parsecmp.isna(want) else uaconv.py2canon(want); b = None if parsecmp.isna(new) else uaconv.py2canon(new)
-        if a != b: bad.append((k, a, b))
+        if a != b: (bad if explained(k, prev, new) else odd).append((k, a, b))
     if bad: report("C17/value", "%r" % (bad[:2],))
+    if odd: fails.append(("C17/value-unexplained", "%r" % (odd[:2],)))
     cols = [c for c in res["nodes"].columns if c != "Value"]
     same = all(str(list(res["nodes"][c])) == str(list(G.nodes[c])) for c in cols) and list(res["references"].itertuples(index=False)) == list(G.references.itertuples(index=False))
     if not same: fails.append(("C17/other-cells-changed", "a column other than Value differs after construction"))
@@ -439,6 +450,11 @@ def run_c16(ctx):
                 aux = "urn:aux:unused"; g.uris.append(aux)
                 ak = (aux, "i", "1"); g.nodes[ak] = dict(cls="UAObject", bname=(aux, "AuxObject"), display="AuxObject", desc=None, attrs={}, value=None); g.order.append(ak)
                 g.refs.append(((UA, "i", "85"), ak, (UA, "i", "35")))
+                # ... and that namespace has data types of its own that are DISPLAYED under the names of built-in types (no variable declares them)
+                for bi, bn in enumerate(sorted(nsgen.BUILTIN_IDS)):
+                    if (ci + bi) % 2: continue
+                    tk_ = (aux, "i", str(100 + bi)); g.nodes[tk_] = dict(cls="UADataType", bname=(aux, "Vendor" + bn), display=bn, desc=None, attrs={}, value=None); g.order.append(tk_)
+                    g.refs.append(((UA, "i", "24"), tk_, (UA, "i", "45")))
                 g.models[aux] = dict(version="1.0.0", pubdate=None, required=[dict(uri=UA, version="1.04", pubdate=None)])
                 fnames = {aux: "Aux.first.xml"}
             ds = nsgen.serialise(g, rng, value_xml=parseprops.value_xml, aliases=rng.random() < 0.5, file_names=fnames)
